@@ -1,0 +1,22 @@
+//go:build verif
+
+/*
+SPDX-License-Identifier: Apache-2.0
+*/
+
+package messagepickup
+
+import "github.com/hyperledger/aries-framework-go/pkg/didcomm/common/service"
+
+// VerifHandleSync runs the handler HandleInbound would start in a goroutine, synchronously,
+// so that a verification harness can observe its result (and recover a panic).
+func (s *Service) VerifHandleSync(msg service.DIDCommMsg, myDID, theirDID string) error {
+	switch msg.Type() {
+	case StatusRequestMsgType:
+		return s.handleStatusRequest(msg, myDID, theirDID)
+	case BatchPickupMsgType:
+		return s.handleBatchPickup(msg, myDID, theirDID)
+	}
+
+	return nil
+}
